@@ -59,8 +59,8 @@ def _rec(ph):
     return _objs.get(id(ph))
 
 
-def _project(r):
-    core = D.project_core(r.ph, r.s2pp, r.u2pp, r.sr_memo)
+def _project(r, building=None):
+    core = D.project_core(r.ph, r.s2pp, r.u2pp, r.sr_memo, building)
     return dict(core, cp=dict(on=False, ok=True, shared=False), held=[])
 
 
@@ -68,7 +68,7 @@ def _event(r, op, **kw):
     ev = dict(op=op, lay="none", m="none", keep=False, f=False, typ="none", cls="none", k="none", i=0, chg=True,
               refused=False, err=False, stored=True, qok=True, frame=True, errtext="")
     ev.update(kw)
-    ev["obs"] = _project(r)
+    ev["obs"] = _project(r, ev["k"] if op == "Query" else None)
     ev["test"] = os.environ.get("PYTEST_CURRENT_TEST", "")[:120]
     r.events.append(ev)
     r.fp = D.content_fingerprint(r.ph)
